@@ -15,7 +15,7 @@ from . import VERIF, REPO
 from .kernel import HarnessError, RunTimeout, Violation
 from .rng import Rng, run_seed
 
-RUN_TIMEOUT_S = 90.0       # CPU seconds one run may use (ITIMER_PROF: a busy machine does not trip it)
+RUN_TIMEOUT_S = 300.0      # CPU seconds one run may use (ITIMER_PROF: a busy machine does not trip it)
 RUN_WALL_TIMEOUT_S = 900.0  # wall-clock seconds one run may take whatever the load
 RUN_MEM_LIMIT = 6 << 30
 EVIDENCE_DIR = os.path.join(VERIF, "evidence")
